@@ -25,6 +25,15 @@ def load_specs(pid):
 
 def apply_edit(root, spec):
     """returns None if applied, else the reason it could not be applied"""
+    if spec.get('patch'):
+        # a recorded seeded change (unified diff relative to the repository root), see /verif/seeded/
+        pf = os.path.join(VERIF, spec['patch'])
+        if not os.path.exists(pf):
+            return 'patch file %s missing' % spec['patch']
+        r = subprocess.run('patch -p1 -s -f -d %s < %s' % (root, pf), shell=True, stdout=subprocess.PIPE, stderr=subprocess.STDOUT)
+        if r.returncode != 0:
+            return 'patch no longer applies: ' + r.stdout.decode()[:160]
+        return None
     for ed in spec.get('edits', [spec]):
         path = os.path.join(root, ed['file'])
         if not os.path.exists(path):
@@ -57,7 +66,7 @@ def run_one(pid, spec, tier='quick'):
         if why:
             return {'name': spec['name'], 'status': 'skipped', 'reason': why}
         # the mutant must still be valid C
-        for ed in spec.get('edits', [spec]):
+        for ed in ([] if spec.get('patch') else spec.get('edits', [spec])):
             if ed['file'].endswith('.c'):
                 r = subprocess.run(['clang', '-fsyntax-only', '-w', '-I' + os.path.join(base, 'src'),
                                     '-I' + os.path.join(REPO, '_build'), '-DVERSION_MAJOR=0',
